@@ -1,0 +1,15 @@
+//go:build verif
+
+package unixsocket
+
+import "syscall"
+
+// ParseOOBVerif exposes ParseSocketControlMessage followed by parseMsg for the
+// verification harness (build tag verif only).
+func ParseOOBVerif(oob []byte) (Msg, error) {
+	msgs, err := syscall.ParseSocketControlMessage(oob)
+	if err != nil {
+		return Msg{}, err
+	}
+	return parseMsg(msgs)
+}
